@@ -211,38 +211,53 @@ func enumerate(e *common.Enum) {
 
 // ---------------------------------------------------------------- free-running race pass
 
-// raceSig builds "race:<first library frame of each of the two accesses>".
+// raceSig builds "race:<library package(s) of the two conflicting accesses>".  Which
+// pair of accesses the detector reports first for one unsynchronised variable differs
+// from run to run (read/write, write/write, map internals), so function names would
+// make one defect look like many; the package of the first library frame of each of
+// the two access stacks is stable.
 func raceSig(report string) string {
-	var frames []string
-	blocks := strings.Split(report, "\n\n")
-	for _, b := range blocks {
-		if !(strings.Contains(b, "by goroutine") || strings.Contains(b, "by main goroutine")) || strings.HasPrefix(strings.TrimSpace(b), "Goroutine") {
+	var pkgs []string
+	for _, b := range strings.Split(report, "\n\n") {
+		hdr := strings.TrimSpace(strings.SplitN(strings.TrimSpace(b), "\n", 2)[0])
+		hdr = strings.TrimPrefix(hdr, "WARNING: DATA RACE\n")
+		if strings.HasPrefix(hdr, "WARNING") {
+			// the first access follows the banner line in the same block
+			if parts := strings.SplitN(strings.TrimSpace(b), "\n", 2); len(parts) == 2 {
+				hdr = strings.TrimSpace(strings.SplitN(parts[1], "\n", 2)[0])
+			}
+		}
+		if !(strings.HasPrefix(hdr, "Read") || strings.HasPrefix(hdr, "Write") || strings.HasPrefix(hdr, "Previous") || strings.HasPrefix(hdr, "Atomic")) {
 			continue
 		}
-		hdr := strings.TrimSpace(strings.SplitN(b, "\n", 2)[0])
-		if !(strings.HasPrefix(hdr, "Read") || strings.HasPrefix(hdr, "Write") || strings.HasPrefix(hdr, "Previous") || strings.HasPrefix(hdr, "WARNING") || strings.HasPrefix(hdr, "Atomic")) {
-			continue
-		}
-		lines := strings.Split(b, "\n")
-		for i := 0; i < len(lines); i++ {
-			l := strings.TrimSpace(lines[i])
+		for _, l := range strings.Split(b, "\n") {
+			l = strings.TrimSpace(l)
 			if strings.HasPrefix(l, "github.com/ajitpratap0/GoSQLX/") && !strings.Contains(l, "/verifshim/") {
-				if j := strings.LastIndex(l, "("); j > 0 {
+				l = strings.TrimPrefix(l, "github.com/ajitpratap0/GoSQLX/")
+				// pkg/sql/security.NewScanner() -> pkg/sql/security
+				if i := strings.LastIndex(l, "/"); i >= 0 {
+					if j := strings.Index(l[i:], "."); j >= 0 {
+						l = l[:i+j]
+					}
+				} else if j := strings.Index(l, "."); j >= 0 {
 					l = l[:j]
 				}
-				frames = append(frames, strings.TrimPrefix(l, "github.com/ajitpratap0/GoSQLX/"))
+				pkgs = append(pkgs, l)
 				break
 			}
 		}
-		if len(frames) == 2 {
+		if len(pkgs) == 2 {
 			break
 		}
 	}
-	if len(frames) == 0 {
+	if len(pkgs) == 0 {
 		return "race:unattributed"
 	}
-	sort.Strings(frames)
-	return "race:" + strings.Join(frames, "|")
+	sort.Strings(pkgs)
+	if len(pkgs) == 2 && pkgs[0] == pkgs[1] {
+		pkgs = pkgs[:1]
+	}
+	return "race:" + strings.Join(pkgs, "|")
 }
 
 func raceCase(c *common.Ctx, fam string, thorough bool) {
@@ -260,6 +275,10 @@ func raceCase(c *common.Ctx, fam string, thorough bool) {
 		tier = "thorough"
 	}
 	for t := 0; t < trials; t++ {
+		if cf := os.Getenv("VERIF_CURFILE"); cf != "" {
+			now := time.Now()
+			os.Chtimes(cf, now, now) // heartbeat for the framework's hang detector
+		}
 		cmd := exec.Command(bin, fam, tier)
 		cmd.Env = append(os.Environ(), "GOMAXPROCS=8", "GORACE=halt_on_error=1 history_size=2", "GOTRACEBACK=single")
 		var out, errb bytes.Buffer
@@ -273,10 +292,10 @@ func raceCase(c *common.Ctx, fam string, thorough bool) {
 		var err error
 		select {
 		case err = <-done:
-		case <-time.After(100 * time.Second):
+		case <-time.After(90 * time.Second):
 			cmd.Process.Kill()
 			<-done
-			c.Fail("hang:race-pass:"+fam, "free-running pass did not finish within 100 s\n"+common.Trim(errb.String(), 1500))
+			c.Fail("hang:race-pass:"+fam, "free-running pass did not finish within 90 s (deadlock or livelock on real goroutines)\n"+common.Trim(errb.String(), 1500))
 			return
 		}
 		es := errb.String()
